@@ -511,16 +511,38 @@ fn sim_dispute(w: &W, sim: &MinerState, p: &DisputeWindowedPoStParams) -> Result
 }
 
 // ---------- decomposition of a message into model operations ----------
-fn collect<'a>(t: &'a InvocationTrace, miner: &Address, out: &mut Vec<&'a InvocationTrace>) {
+fn count_sub(t: &InvocationTrace, ctr: &mut u64) {
+    for s in &t.subinvocations {
+        *ctr += 1;
+        count_sub(s, ctr);
+    }
+}
+
+/// The invocations on the miner that were executed and not rolled back by a failing ancestor, in call
+/// order.  Nested sends are numbered in call order (the fault plan's ordinal): the send the plan failed
+/// was never executed (its trace node is synthesized by the VM) and is skipped.
+fn collect<'a>(t: &'a InvocationTrace, miner: &Address, inj: Option<u64>, ctr: &mut u64, top: bool, live: bool, out: &mut Vec<&'a InvocationTrace>) {
+    if !top {
+        let my = *ctr;
+        *ctr += 1;
+        if Some(my) == inj {
+            if t.to == *miner && t.method == MinerMethod::OnDeferredCronEvent as u64 {
+                // the power actor deletes the claim of a miner whose cron callback failed
+                CLAIM_LOSS_EXPLAINED.with(|c| *c.borrow_mut() = true);
+            }
+            return;
+        }
+    }
     if t.to == *miner {
-        out.push(t);
+        if live {
+            out.push(t);
+        }
+        count_sub(t, ctr);
         return;
     }
-    if !t.exit_code.is_success() {
-        return; // everything below was rolled back
-    }
+    let live2 = live && t.exit_code.is_success();
     for s in &t.subinvocations {
-        collect(s, miner, out);
+        collect(s, miner, inj, ctr, false, live2, out);
     }
 }
 
@@ -783,6 +805,10 @@ fn observe_inv(
         op = format!("Other {} {} {}", zt(&(&post.bal - &pre.bal)), zt(&(&post.pcd - &pre.pcd)), zt(&(&post.ip - &pre.ip)));
         sends_enc = vec!["0".into()];
     }
+    if !ok && codev == 19 && (kind == "withdraw" || kind == "pre_commit" || kind == "declare_recovered") && pre.fee_debt > pre.unlocked() {
+        let key = format!("gate_rejections_in_debt_{}", kind);
+        *stats.extra.entry(key.clone()).or_insert(serde_json::json!(0)) = serde_json::json!(stats.extra.get(&key).and_then(|x| x.as_u64()).unwrap_or(0) + 1);
+    }
     // gated handlers that went through must have cleared the debt by burning it
     if ok && (kind == "withdraw" || kind == "pre_commit" || kind == "declare_recovered") && single {
         if !post.fee_debt.is_zero() || burnt != pre.fee_debt {
@@ -841,6 +867,12 @@ fn pre_gate_param_failure(_t: &InvocationTrace) -> bool {
     })
 }
 thread_local! {
+    static BORING: std::cell::RefCell<u64> = std::cell::RefCell::new(0);
+}
+thread_local! {
+    static CHARGED_SEEN: std::cell::RefCell<bool> = std::cell::RefCell::new(false);
+}
+thread_local! {
     static CLAIM_LOSS_EXPLAINED: std::cell::RefCell<bool> = std::cell::RefCell::new(false);
 }
 thread_local! {
@@ -890,7 +922,7 @@ fn check_fee_bounds(et: &EtSim, fails: &mut Vec<(String, String)>) {
 }
 
 /// One executed top-level message -> one correspondence step (a list of model operations) + monitors.
-fn observe(w: &W, pre: &Snap, est: (FilterEstimate, FilterEstimate), d: &Done, injected: bool, stats: &mut Stats)
+fn observe(w: &W, pre: &Snap, est: (FilterEstimate, FilterEstimate), d: &Done, injected: bool, inj_ord: Option<u64>, stats: &mut Stats)
     -> (Option<(String, Vec<String>)>, Vec<(String, String)>) {
     let post = snapshot(w);
     let mut fails: Vec<(String, String)> = vec![];
@@ -898,7 +930,8 @@ fn observe(w: &W, pre: &Snap, est: (FilterEstimate, FilterEstimate), d: &Done, i
     LAST_MSG.with(|m| *m.borrow_mut() = d.msg.clone());
     PRE_EST.with(|e| *e.borrow_mut() = Some(est));
     let mut invs = vec![];
-    collect(tr, &w.miner, &mut invs);
+    let mut ctr = 0u64;
+    collect(tr, &w.miner, inj_ord, &mut ctr, true, true, &mut invs);
     let ctx = MsgCtx { sys_origin: tr.from == 0, injected };
     let mut sim = pre.st.clone();
     let mut v = pre.vested();
@@ -943,6 +976,7 @@ fn observe(w: &W, pre: &Snap, est: (FilterEstimate, FilterEstimate), d: &Done, i
             *x = if seen == n_kept { zt(&kept) } else { "0".into() };
         }
     }
+    if charged.is_positive() { CHARGED_SEEN.with(|c| *c.borrow_mut() = true); }
     if !kept.is_zero() {
         match &rf_failed_reporter {
             Some(r) if *r == kept => fails.push(("F5-reporter-send-failure-keeps-reward".into(), format!(
@@ -969,6 +1003,16 @@ fn observe(w: &W, pre: &Snap, est: (FilterEstimate, FilterEstimate), d: &Done, i
         return (None, fails);
     }
     obs.extend(post.enc());
+    // deadline ends that charge nothing and leave the funds untouched are the bulk of every history:
+    // only every 8th of them is handed to the model (model and implementation states stay in step)
+    if ops.len() == 1 && ops[0].starts_with("Cron ") && ops[0].contains("CronDeadline") && any_ok && charged.is_zero() && burnt.is_zero() && pre.enc() == post.enc() {
+        let n = BORING.with(|c| { let mut c = c.borrow_mut(); *c += 1; *c });
+        if n % 8 != 0 {
+            *stats.extra.entry("idle_deadline_ends_not_emitted".into()).or_insert(serde_json::json!(0)) =
+                serde_json::json!(stats.extra.get("idle_deadline_ends_not_emitted").and_then(|x| x.as_u64()).unwrap_or(0) + 1);
+            return (None, fails);
+        }
+    }
     (Some((cf::list(ops), obs)), fails)
 }
 
@@ -991,6 +1035,7 @@ struct Run<'a> {
     agenda: Vec<Act>,
     want_sectors: usize,
     cron_faults: bool,
+    len: usize,
 }
 
 impl<'a> Run<'a> {
@@ -1005,13 +1050,13 @@ impl<'a> Run<'a> {
         let label = format!("{}{}@{} -> {}", what, plan.map(|p| format!("+fail[{}:{}]", p.0, p.1.value())).unwrap_or_default(), pre.epoch, d.code);
         if std::env::var("PENALTY_DEBUG").is_ok() { eprintln!("[{}] {} :: {}", self.case, label, d.msg.chars().take(160).collect::<String>()); }
         self.h.script.push(label);
-        let (step, fails) = observe(&self.w, &pre, est, &d, injected_hit, self.stats);
+        let (step, fails) = observe(&self.w, &pre, est, &d, injected_hit, plan.map(|p| p.0), self.stats);
         if let Some(s) = step { self.h.steps.push(s); }
         if d.code != 0 { self.h.rejected = true; }
         for (cls, whatf) in fails {
             if !cls.starts_with("F") && !cls.starts_with("harness") || true {
                 self.h.fails.push(serde_json::json!({"class": cls, "what": [whatf], "step": self.h.script.len() - 1,
-                    "case": {"seed": self.seed, "case": self.case, "script": self.h.script.clone()}}));
+                    "case": {"seed": self.seed, "case": self.case, "len": self.len, "script": self.h.script.clone()}}));
             }
         }
         for p in self.w.v.panics.borrow_mut().drain(..) { self.stats.panics.push(p); }
@@ -1364,16 +1409,17 @@ fn run_case(seed: u64, k: u64, len: usize, stats: &mut Stats) -> (Case, Vec<serd
     *stats.extra.entry(key.into()).or_insert(serde_json::json!(0)) = serde_json::json!(stats.extra.get(key).and_then(|x| x.as_u64()).unwrap_or(0) + 1);
     let w = setup(&plan);
     CLAIM_LOSS_EXPLAINED.with(|c| *c.borrow_mut() = false);
+    CHARGED_SEEN.with(|c| *c.borrow_mut() = false);
     let init = snapshot(&w).coq();
     let want = 1 + r.below(7) as usize;
-    let mut run = Run { w, r, stats, h: Hist { steps: vec![], script: vec![], fails: vec![], accepted_penalised: false, rejected: false }, seed, case: k, agenda: vec![], want_sectors: want, cron_faults: false };
+    let mut run = Run { w, r, stats, h: Hist { steps: vec![], script: vec![], fails: vec![], accepted_penalised: false, rejected: false }, seed, case: k, agenda: vec![], want_sectors: want, cron_faults: false, len };
     run.cron_faults = run.r.chance(15);
     run.h.script.push(format!("setup extra={}FIL pad={} small_batches={} circ={}FIL workflow_onboard={} fault_age_periods={}", plan.extra_fil, plan.pad, plan.small_batches, plan.circ_fil, plan.workflow_onboard, plan.fault_age_periods));
     if std::env::var("PENALTY_DEBUG").is_ok() { eprintln!("[{}] {}", k, run.h.script[0]); }
     for i in 0..len {
         run.step(i, len);
     }
-    let nontrivial = run.h.rejected && run.h.steps.len() > 3;
+    let nontrivial = run.h.rejected && CHARGED_SEEN.with(|c| *c.borrow());
     let _ = run.h.accepted_penalised;
     (Case { init, steps: run.h.steps, nontrivial }, run.h.fails)
 }
@@ -1392,7 +1438,8 @@ fn main() {
     if let Some(p) = &a.replay {
         let v: serde_json::Value = serde_json::from_str(&std::fs::read_to_string(p).unwrap()).unwrap();
         let c = if v["violation"]["detail"]["case"].is_object() { &v["violation"]["detail"]["case"] } else { &v["case"] };
-        let (case, fails) = run_case(c["seed"].as_u64().unwrap(), c["case"].as_u64().unwrap(), a.len, &mut stats);
+        let len = c["len"].as_u64().map(|x| x as usize).unwrap_or(a.len);
+        let (case, fails) = run_case(c["seed"].as_u64().unwrap(), c["case"].as_u64().unwrap(), len, &mut stats);
         cw.push(case);
         all_fails.extend(fails);
     } else {
